@@ -37,6 +37,14 @@ def run(tier):
              {"optimize": True, "power_pole_type": "big"}, {"optimize": True, "power_pole_type": "substation"}]
     if tier == "quick":
         progs = progs[::2] + progs[-1:]
+    from bounded import pipeline
+    from bounded.contract_enum import run_contract_enum
+    from contracts import c18
+    pipeline.ensure_repo()
+    pargs = c18.connect_arg_sets()
+    cr.bounded_check(run_contract_enum, "connect-pole-to-nearest-box", c18.connect_nearest, pargs,
+                     f"{len(pargs)} pole sets (1..4 poles on six spots, reaches 7.5 / 9 / 32, 1 / 2 / 5 neighbours): nearest first, at most max_neighbors, each within the reach of "
+                     "BOTH ends (contract evaluated on the real BlueprintEmitter._connect_pole_to_nearest with recording stand-ins for the draftsman blueprint)")
     cr.bounded_check(run_geometry_scope, "power", progs, modes, ("power",),
                      f"{len(progs)} programs x {len(modes)} option sets", cr.known, classify=classify)
     return cr.finish()
